@@ -190,9 +190,7 @@ def validate(acc, sc, p):
         need(e["service"] in srvl and (e["os"] is None or e["os"] in osl),
              "exploit_references", n)
         need(e["cost"] == p.get("exploit_cost", 1), "exploit_cost", n)
-        need(0.0 < float(e["prob"]) <= 1.0 or (ep is None and
-                                               float(e["prob"]) == 0.0),
-             "exploit_prob_range", e["prob"])
+        need(0.0 < float(e["prob"]) <= 1.0, "exploit_prob_range", e["prob"])
         if isinstance(ep, float):
             need(float(e["prob"]) == ep, "exploit_prob_requested")
         elif isinstance(ep, list):
@@ -207,9 +205,7 @@ def validate(acc, sc, p):
         need(e["process"] in procl and (e["os"] is None or e["os"] in osl),
              "privesc_references", n)
         need(e["cost"] == p.get("privesc_cost", 1), "privesc_cost", n)
-        need(0.0 < float(e["prob"]) <= 1.0 or (pp is None and
-                                               float(e["prob"]) == 0.0),
-             "privesc_prob_range", e["prob"])
+        need(0.0 < float(e["prob"]) <= 1.0, "privesc_prob_range", e["prob"])
         if isinstance(pp, float):
             need(float(e["prob"]) == pp, "privesc_prob_requested")
         elif isinstance(pp, list):
